@@ -12,7 +12,8 @@ decode (DECERR(f, k)).  Lines, regex groups and derived strings are opaque strin
 
 so the theorem proved about `parse_swc` holds for EVERY interpretation of them ("for any line grammar"): the table
 has exactly one entry per row line, in file order, each field the conversion of the matching group; comments are the
-comment lines (minus the writer's column header) in order; any other line / failed conversion / decode error leaves
+comment lines in order, minus the writer's column header = the LAST comment line in front of the first row line (end of the
+file when there is no row) if its text starts like the header; any other line / failed conversion / decode error leaves
 through ValueError; a normal return consumed and classified every line; columns are never unevenly filled.
 """
 import re
@@ -61,8 +62,13 @@ STARTS = z3.Function("startswith", _I, _S, _B)
 # ghost counters / enumerations (defined by their unfolding, see ghost_axioms)
 RCNT = z3.Function("rows_before", _I, _I, _I)
 RLINE = z3.Function("row_line", _I, _I, _I)
-CCNT = z3.Function("comments_before", _I, _I, _I)
-CLINE = z3.Function("comment_line", _I, _I, _I)
+ACNT = z3.Function("hash_lines_before", _I, _I, _I)      # ALL comment lines among the first k lines (the column header included)
+ALINE = z3.Function("hash_line", _I, _I, _I)              # index of the j-th of them
+FIRSTROW = z3.Function("first_row_line", _I, _I)          # index of the first row line; n_lines when the file has no row
+NLEAD = z3.Function("leading_comment_lines", _I, _I)      # number of comment lines in front of it
+HASHDR = z3.Function("has_column_header", _I, _B)         # the last of those starts like the writer's column header
+CCNT = z3.Function("comments_before", _I, _I, _I)         # KEPT comment lines (all but the column header) among the first k lines
+CLINE = z3.Function("comment_line", _I, _I, _I)           # index of the j-th kept comment line
 UNREADABLE = z3.Function("source_unreadable", _I, _B)
 ABSPATH = z3.Function("abspath", _I, _I)
 
@@ -307,8 +313,21 @@ def header_text(names):
     return " " + " ".join(names.cols())
 
 
-def kept_comment(n_extra, names, s):
-    return z3.And(is_comment(n_extra, s), z3.Not(STARTS(comment_text(s), z3.StringVal(header_text(names)))))
+def starts_like_header(names, s):
+    """the text the reader keeps of comment line s starts with the seven column names of the writer's header line"""
+    return STARTS(comment_text(s), z3.StringVal(header_text(names)))
+
+
+def header_ordinal(f):
+    """position of the column-header line among the comment lines (meaningful when HASHDR(f))"""
+    return NLEAD(f) - 1
+
+
+def kept_comment(n_extra, names, f, k):
+    """line k of f is a comment line the reader returns: a comment line, and not THE column-header line of the file.  Context dependent:
+    the column header is the last comment line in front of the first row, and only if it starts like the header the writer emits there;
+    a line of the same text anywhere else (an earlier line, a line between / behind the rows) is a comment like any other."""
+    return z3.And(is_comment(n_extra, LINE(f, k)), z3.Not(z3.And(HASHDR(f), ACNT(f, k) == header_ordinal(f))))
 
 
 def conv_ok(n_extra, s):
@@ -331,18 +350,57 @@ def line_ok(n_extra, f, k):
 
 def ghost_axioms(E, f, n_extra, names):
     """definitions of the ghost counters (primitive recursion over the line index) and of the enumerations of row /
-    kept-comment lines (inverse of the strictly increasing counter on the lines it counts)"""
+    comment lines (inverse of the strictly increasing counter on the lines it counts); the column header and the kept
+    comments are DEFINED from them without recursion (the recursion `comments_before` obeys is the lemma of `lemmas()` below)"""
     k = z3.Int(fresh_name("gk"))
     row = lambda kk: is_row(n_extra, LINE(f, kk))
-    kept = lambda kk: kept_comment(n_extra, names, LINE(f, kk))
+    hash_ = lambda kk: is_comment(n_extra, LINE(f, kk))
     E.assume(NL(f) >= 0)
-    for CNT, ENUM, pred in ((RCNT, RLINE, row), (CCNT, CLINE, kept)):
+    for CNT, ENUM, pred in ((RCNT, RLINE, row), (ACNT, ALINE, hash_)):
         E.assume(CNT(f, 0) == 0)
         E.assume(z3.ForAll([k], z3.Implies(k >= 0, CNT(f, k + 1) == CNT(f, k) + z3.If(pred(k), 1, 0)), patterns=[CNT(f, k + 1)]))
         E.assume(z3.ForAll([k], z3.Implies(k >= 0, z3.And(CNT(f, k) >= 0, CNT(f, k) <= k)), patterns=[CNT(f, k)]))
         E.assume(z3.ForAll([k], z3.Implies(z3.And(k >= 0, pred(k)), ENUM(f, CNT(f, k)) == k), patterns=[CNT(f, k)]))
-    E.assumptions.add("ghost definition: rows_before/comments_before(f, k) = number of row / kept-comment lines among the first k lines; "
-                      "row_line/comment_line(f, j) = index of the j-th such line")
+    # the column header: the LAST comment line in front of the first row line (of the end of the file when no line is a row), if its text starts like it
+    E.assume(FIRSTROW(f) == z3.If(RCNT(f, NL(f)) > 0, RLINE(f, 0), NL(f)))
+    E.assume(NLEAD(f) == ACNT(f, FIRSTROW(f)))
+    E.assume(HASHDR(f) == z3.And(NLEAD(f) > 0, starts_like_header(names, LINE(f, ALINE(f, header_ordinal(f))))))
+    # kept comments = the comment lines minus that one: the counter skips it, the enumeration jumps over it
+    E.assume(z3.ForAll([k], CCNT(f, k) == ACNT(f, k) - z3.If(z3.And(HASHDR(f), ACNT(f, k) > header_ordinal(f)), 1, 0), patterns=[CCNT(f, k)]))
+    E.assume(z3.ForAll([k], CLINE(f, k) == ALINE(f, k + z3.If(z3.And(HASHDR(f), k >= header_ordinal(f)), 1, 0)), patterns=[CLINE(f, k)]))
+    E.assumptions.add("ghost definition: rows_before/hash_lines_before(f, k) = number of row / comment lines among the first k lines; row_line/hash_line(f, j) = index "
+                      "of the j-th such line; first_row_line(f) = row_line(f, 0), n_lines(f) if no line is a row; leading_comment_lines(f) = hash_lines_before(f, "
+                      "first_row_line(f)); has_column_header(f) = the last of these comment lines exists and its kept text starts with ' id type x y z r pid'; "
+                      "comments_before(f, k) = hash_lines_before(f, k) minus 1 once the header is among them; comment_line(f, j) = hash_line(f, j), shifted by one from the header on")
+
+
+def lemmas():
+    """`comments_before` / `comment_line` ARE the counter / enumeration of the lines that satisfy the context-dependent `kept_comment`: the two facts that
+    used to be their definition (when `kept_comment` was a property of the line alone) follow from the definitions above."""
+    from swcgeom.core.swc_utils import get_names
+
+    class Collect:
+        def __init__(self):
+            self.pc, self.assumptions = [], set()
+
+        def assume(self, fact):
+            self.pc.append(fact)
+
+    names = get_names()
+    out = []
+    for ne in (0, 1):
+        E, f, k = Collect(), z3.Int("any_file"), z3.Int("any_line")
+        ghost_axioms(E, f, ne, names)
+        kept = kept_comment(ne, names, f, k)
+        sfx = "" if ne == 0 else "(one-extra-column)"
+        out.append((f"comments/comments_before-counts-the-kept-comment-lines:it-moves-by-one-exactly-over-a-kept-comment-line{sfx}", E.pc + [k >= 0],
+                    CCNT(f, k + 1) == CCNT(f, k) + z3.If(kept, 1, 0)))
+        out.append((f"comments/comment_line-enumerates-the-kept-comment-lines:the-line-behind-ordinal-comments_before(k)-is-k-for-a-kept-line-k{sfx}", E.pc + [k >= 0, kept],
+                    CLINE(f, CCNT(f, k)) == k))
+        out.append((f"comments/a-comment-line-is-dropped-only-if-it-is-the-last-one-in-front-of-the-first-row-and-starts-like-the-column-header{sfx}",
+                    E.pc + [k >= 0, is_comment(ne, LINE(f, k)), z3.Not(kept)],
+                    z3.And(ACNT(f, k) == NLEAD(f) - 1, ACNT(f, k + 1) == ACNT(f, FIRSTROW(f)), starts_like_header(names, LINE(f, k)))))
+    return out
 
 
 # ===========================================================================
@@ -627,18 +685,65 @@ def register_parse(R):
             out.append(z3.ForAll([j], z3.Implies(z3.And(j >= 0, j < zint(p.n)), z3.Select(p.cols[0], j) == field(ne, LINE(f, RLINE(f, j)), c))))
         return z3.And(*out) if out else True
 
-    def comments_are(f, ne, p, upto):
+    def all_comments_are(f, ne, p, upto):
+        """p holds the texts of ALL comment lines among the first `upto` lines, in file order"""
         if p.items is not None:
             if p.items:
                 return False
-            return CCNT(f, upto) == 0
+            return ACNT(f, upto) == 0
         j = z3.Int(fresh_name("j"))
-        return z3.And(zint(p.n) == CCNT(f, upto),
+        return z3.And(zint(p.n) == ACNT(f, upto),
+                      z3.ForAll([j], z3.Implies(z3.And(j >= 0, j < zint(p.n)), z3.Select(p.cols[0], j) == comment_text(LINE(f, ALINE(f, j))))))
+
+    def comments_are(f, ne, p):
+        """p holds the texts of the KEPT comment lines of the whole file, in file order"""
+        if p.items is not None:
+            if p.items:
+                return False
+            return CCNT(f, NL(f)) == 0
+        j = z3.Int(fresh_name("j"))
+        return z3.And(zint(p.n) == CCNT(f, NL(f)),
                       z3.ForAll([j], z3.Implies(z3.And(j >= 0, j < zint(p.n)), z3.Select(p.cols[0], j) == comment_text(LINE(f, CLINE(f, j))))))
 
     def inv_comments(E, v, o):
+        # the loop keeps EVERY comment line; which of them is the column header is decided behind the loop
         f, ne = ctx(v)
-        return comments_are(f, ne, v["comments"], K(v))
+        return all_comments_are(f, ne, v["comments"], K(v))
+
+    def leading_count_name():
+        """the local in which the loop remembers how many comment lines came in front of the first row: the name that is assigned `len(<the comment
+        list>)` INSIDE the loop (read from the source as it is now, so that the invariant does not spell the name); None when there is no such local"""
+        import ast as _ast
+
+        from pyvc import extract
+
+        try:
+            fn = extract.find(f"{IO}:parse_swc")[0]  # the AST the symbolic executor runs (locals re-anchored by pyvc/align.py after a mere rename)
+        except KeyError:
+            return None
+        loops_ = [n for n in _ast.walk(fn) if isinstance(n, _ast.For)]
+        for node in (_ast.walk(loops_[0]) if loops_ else ()):
+            if (isinstance(node, _ast.Assign) and len(node.targets) == 1 and isinstance(node.targets[0], _ast.Name) and isinstance(node.value, _ast.Call)
+                    and isinstance(node.value.func, _ast.Name) and node.value.func.id == "len" and len(node.value.args) == 1
+                    and isinstance(node.value.args[0], _ast.Name) and node.value.args[0].id == "comments"):
+                return node.targets[0].id
+        return None
+
+    def inv_leading(E, v, o):
+        """once a row line has been met the local holds the number of comment lines in front of the FIRST one (and that many comments are in the
+        list); before, it holds its negative start value"""
+        f, ne = ctx(v)
+        nm = leading_count_name()
+        if nm is None or nm not in v:
+            return True  # a reader that keeps no such count is judged by the postcondition alone
+        c = to_z3(v[nm], "int")
+        return z3.And((c < 0) == (RCNT(f, K(v)) == 0),
+                      z3.Implies(c >= 0, z3.And(c == ACNT(f, RLINE(f, 0)), c <= _plen(v["comments"]))))
+
+    def comment_texts(eng, lst):
+        # the entries of the comment list are abstract strings (what the loop appends; `comments[i].startswith(...)` behind the loop)
+        lst.promote("ref")
+        lst.proto = {"__wrap__": AStr}
 
     def inv_consumed(E, v, o):
         f, ne = ctx(v)
@@ -665,7 +770,7 @@ def register_parse(R):
     def post_comments(E, v, o):
         f, ne = ctx(v)
         _, cm = v["result"]
-        return comments_are(f, ne, cm, NL(f))
+        return comments_are(f, ne, cm)
 
     def post_consumed(E, v, o):
         f, ne = ctx(v)
@@ -742,9 +847,10 @@ def register_parse(R):
             invariant=[("columns-equally-filled-one-entry-per-row-line-so-far", inv_equal),
                        ("fields-are-the-conversions-of-the-row-groups", inv_fields),
                        ("comments-so-far", inv_comments),
+                       ("number-of-comment-lines-in-front-of-the-first-row-remembered", inv_leading),
                        ("lines-so-far-read-and-classified", inv_consumed)],
             modifies=[loop_moves_the_cursor],
-            types={"comments": "ref"})},
+            types={"comments": comment_texts})},
         options=dict(asserts_after={"vals": [("element-types-declared", declare_element_types)]}),
         notes="number of lines, every line, every token and every converted value symbolic/abstract; the inner loop over the "
               "seven (eight) conversions is unrolled; source kinds path / byte stream / text stream and 0/1 extra column as variants",
